@@ -21,3 +21,64 @@ package templ
 //@ lemma url_nocolon(x) [C04]: inL(x, NO_3a_STAR) ==> inL(x, URL_BROWSER_OK) by reglang
 //@ lemma url_slash(p, rest) [C04]: inL(p, NO_3a_STAR) && !inL(p, NO_2f_STAR) ==> inL(cat(p, ":", rest), URL_BROWSER_OK) by reglang
 //@ lemma url_allowed(p, rest) [C04]: (inL(p, FOLD_http) || inL(p, FOLD_https) || inL(p, FOLD_mailto) || inL(p, FOLD_tel) || inL(p, FOLD_ftp) || inL(p, FOLD_ftps)) ==> inL(cat(p, ":", rest), URL_BROWSER_OK) by reglang
+
+// ---------------------------------------------------------------------------
+// Interface contract of Component.Render (C10, C11, C13): output is append-only
+// and no error is swallowed. Ghost state: out(w) = bytes accepted by w so far;
+// failedDuring = some callee (writer, nested component, expression) returned a
+// non-nil error. Proved for the implementations under contract, assumed for
+// every other implementation.
+
+//@ func (Component) Render [C10, C11]
+//@   interface
+//@   modifies out(w), failedDuring
+//@   ensures isPrefix(old(out(w)), out(w))
+//@   ensures implies(old(failedDuring), failedDuring)
+//@   ensures implies(result != nil, failedDuring)
+//@   ensures implies(result == nil, failedDuring == old(failedDuring))
+
+// ---------------------------------------------------------------------------
+// C11: the buffered HTTP handler responds all-or-nothing.
+// Ghost tr(w) = the sequence of operations performed on the ResponseWriter:
+// evSet(name, value), evStatus(code), evWrite(body), evError(msg, code)
+// (= http.Error), evDelegate(h) (= h.ServeHTTP(w, r)).
+
+// Resource invariant of the byte-buffer pool: every pooled buffer is empty.
+//@ pool bufferPool *bytes.Buffer: x.Len() == 0
+
+//@ func GetBuffer [C11]
+//@   ensures result != nil && result.Len() == 0
+
+//@ func ReleaseBuffer [C11]
+//@   requires b != nil
+//@   modifies *b
+//@   ensures b.Len() == 0
+
+//@ spec trExtends(T, T0, n) = len(T) == len(T0) + n && forall(k, 0, len(T0), T[k] == T0[k])
+
+// D = the bytes the component rendered into the buffer. Success: content type,
+// the configured status (if any), then the complete document, nothing else.
+// Failure: no byte of D, no success status: either content type + the
+// configured error handler, or the default 500 response.
+//@ func (*ComponentHandler) ServeHTTPBuffered [C11]
+//@   requires ch != nil && r != nil
+//@   modifies tr(w), failedDuring
+//@   let D = buf.String() @ after ch.Component.Render#1
+//@   ensures implies(err == nil && ch.Status != 0, trExtends(tr(w), old(tr(w)), 3)
+//@       && tr(w)[len(old(tr(w)))] == evSet("Content-Type", ch.ContentType)
+//@       && tr(w)[len(old(tr(w)))+1] == evStatus(ch.Status)
+//@       && tr(w)[len(old(tr(w)))+2] == evWrite(D))
+//@   ensures implies(err == nil && ch.Status == 0, trExtends(tr(w), old(tr(w)), 2)
+//@       && tr(w)[len(old(tr(w)))] == evSet("Content-Type", ch.ContentType)
+//@       && tr(w)[len(old(tr(w)))+1] == evWrite(D))
+//@   ensures implies(err != nil && ch.ErrorHandler != nil, trExtends(tr(w), old(tr(w)), 2)
+//@       && tr(w)[len(old(tr(w)))] == evSet("Content-Type", ch.ContentType)
+//@       && tr(w)[len(old(tr(w)))+1].kind == 5)
+//@   ensures implies(err != nil && ch.ErrorHandler == nil, trExtends(tr(w), old(tr(w)), 1)
+//@       && tr(w)[len(old(tr(w)))] == evError(componentHandlerErrorMessage, 500))
+
+// The documented contrast: the streaming handler commits headers and status first.
+//@ func (*ComponentHandler) ServeHTTPStreamed [C11]
+//@   requires ch != nil && r != nil
+//@   modifies tr(w), out(w), failedDuring
+//@   ensures len(tr(w)) >= len(old(tr(w))) + 1 && tr(w)[len(old(tr(w)))] == evSet("Content-Type", ch.ContentType)
